@@ -10,8 +10,12 @@
          table  span -> interned rendering  filled by the harness from the
          crate's own payload decoders (verif::decode_with) for every accepted
          substring of the stream; events are compared by interned code.
-   Utf8  the standalone Utf8Decoder: chunking independence of its outputs only
-         (its machine is modelled under C02).
+   Utf8  the standalone Utf8Decoder (chars as code points, IT c []; errors as RW []): the model is
+         the machine of Decoder/Events.v (u8_feed, proved chunking independent and total under
+         C02); the specification is declarative: from the current position take the shortest
+         prefix on which UTF8DFA stops (dead or accepting, searched with Tokenizer.first_stop);
+         accepting = a character if the assembled code is a scalar value, otherwise an error that
+         consumes the prefix INCLUDING the byte that killed it (decoder.rs:121-127).
 
    Every case lists several runs of the same stream under different partitions
    into reads (chunk lengths) with the tokens the implementation produced.
@@ -20,7 +24,8 @@
    computed from the specification `munch` only): the implementation's tokens
    under every partition are the leftmost-longest tokenisation of the stream. *)
 From Coq Require Import List NArith Arith Bool.
-From SNT Require Export Base.Outcome Base.Report Automata.DfaData Automata.Tokenizer Gen.ProdDFA.
+From SNT Require Export Base.Outcome Base.Report Automata.DfaData Automata.Tokenizer Gen.ProdDFA
+  Decoder.Payload Decoder.Events.
 Import ListNotations.
 Local Open Scope N_scope.
 
@@ -112,6 +117,30 @@ Definition prod_render (t : tok N) : itok :=
   | TRaw sp => RW sp
   end.
 
+(* Utf8Decoder: model and specification *)
+Definition u8_render (x : uout) : itok := match x with UChar c => IT c [] | UErr => RW [] end.
+Definition u8_model_run (input : list N) (cuts : list nat) : out :=
+  match u8_feed utf8_dfa (u8_init utf8_dfa) (split_by cuts input) with
+  | Ok (xs, _) => Some (map u8_render xs)
+  | _ => None
+  end.
+Fixpoint u8_spec (fuel : nat) (s : list N) : list itok :=
+  match fuel with
+  | O => []
+  | S f =>
+      (* every accepting state of UTF8DFA ends a character: `terminal` := accepting *)
+      match first_stop N (d_start utf8_dfa) (d_delta utf8_dfa) (d_accepting utf8_dfa) (d_accepting utf8_dfa) s with
+      | None => []
+      | Some n =>
+          (if dead_at N (d_start utf8_dfa) (d_delta utf8_dfa) s n then RW []
+           else match utf8_decode (firstn n s) with
+                | Ok (Some c) => IT c []
+                | _ => RW []
+                end)
+          :: u8_spec f (skipn n s)
+      end
+  end.
+
 Definition all_equal (runs : list run_rec) : bool :=
   match runs with
   | [] => true
@@ -128,9 +157,9 @@ Definition c03_check (c : c03_case) : bool * bool :=
       let d := if which =? 0 then event_dfa else command_dfa in
       check_runs d (prod_item table) prod_render input runs
   | Utf8 input runs =>
-      let ok := forallb (fun r : run_rec => cuts_ok (fst r) input && match snd r with Some _ => true | None => false end) runs
-                && all_equal runs in
-      (ok, ok)
+      ( forallb (fun r : run_rec => out_eqb (u8_model_run input (fst r)) (snd r)) runs,
+        let spec := Some (u8_spec (length input) input) in
+        forallb (fun r : run_rec => cuts_ok (fst r) input && out_eqb spec (snd r)) runs )
   end.
 
 Definition c03_report := report c03_check.
